@@ -574,6 +574,19 @@ def _validate_zone_tree_structure(
             return "/".join([root["name"], *path_components, o_zone_name])
         return "/".join([root["name"], o_zone_name])
 
+    # Create every zone named by a stream label first, so that generated unit-operation
+    # names (O1, O2, ...) cannot collide with a later label such as "A/O1".
+    for stream in sorted(stream_iter, key=lambda s: (s.zone, s.name)):
+        current = root
+        for z_name in _split_zone_name(stream.zone):
+            if z_name not in current["children"]:
+                current["children"][z_name] = {
+                    "name": z_name,
+                    "type": ZoneType.P.value,
+                    "children": {},
+                }
+            current = current["children"][z_name]
+
     # Sort for deterministic naming (stability aids testing/debugging)
     for stream in sorted(stream_iter, key=lambda s: (s.zone, s.name)):
         original_zone = stream.zone
